@@ -14,6 +14,7 @@ mod vsys;
 mod project;
 mod run;
 mod drv_random;
+mod drv_replay;
 
 use serde_json::Value;
 
@@ -70,6 +71,13 @@ fn main()
             }
             run::write_lines(&out, &lines);
             println!("{}", serde_json::json!({"scenarios" : n, "snapshots" : snaps, "events" : lines.len(), "counts" : run::counts(&lines)}));
+        },
+        "replay" =>
+        {
+            let out = arg(&args, "--out", "trace.ndjson");
+            let (lines, n, notenabled) = drv_replay::replay_file(&arg(&args, "--in", "behaviours.ndjson"), &arg(&args, "--tag", "g"), arg(&args, "--serial-ref", "1") == "1");
+            run::write_lines(&out, &lines);
+            println!("{}", serde_json::json!({"scenarios" : n, "events" : lines.len(), "picks_not_enabled" : notenabled, "counts" : run::counts(&lines)}));
         },
         _ => { eprintln!("usage: rvh selftest|random|crash ..."); std::process::exit(2); },
     }
